@@ -11,6 +11,11 @@ import (
 func init() {
 	subs["store"] = func(args []string) { eachJob(storeJob) }
 	subs["classorder"] = func(args []string) { eachJob(classOrderJob) }
+	subs["normvalue"] = func(args []string) {
+		eachJob(func(j job) any {
+			return map[string]any{"id": j["id"], "out": components.VerifNormalizeAttributeValue(j.str("name"), j.str("value"))}
+		})
+	}
 }
 
 // storeJob: build the attribute store of a document's head exactly as a render does
